@@ -283,6 +283,9 @@ func (s *Server) Declaration(ctx context.Context, params *protocol.DeclarationPa
 		logger.Error().Err(err).Msg("unable to perform declaration lookup")
 		return resp, err
 	}
+	if resp == nil {
+		return resp, nil
+	}
 	if decls, ok := resp.Value.([]protocol.DeclarationLink); ok {
 		for i, decl := range decls {
 			if isGohtGoFile, goURI := toGohtURI(decl.TargetURI); isGohtGoFile {
